@@ -152,10 +152,16 @@ class Report:
         for ob in self.obs:
             if ob.status != INFO:
                 counts[ob.rule] = counts.get(ob.rule, 0) + 1
+        # A behaviour-preserving clean-up (two copies of a block merged into one helper, a loop replacing repeated code)
+        # legitimately lowers an instance count, so only a collapse - no instance at all, or fewer than half of the
+        # reference count - is treated as broken analysis; a smaller drop is recorded as a note in the evidence.
         for r, fl in self.floors.items():
-            if counts.get(r, 0) < fl:
-                self.errors.append("rule %s matched %d instance(s), floor is %d (an anchor moved or vanished; the rule would pass vacuously)"
-                                   % (r, counts.get(r, 0), fl))
+            got = counts.get(r, 0)
+            if got < max(1 if fl > 0 else 0, (fl + 1) // 2):
+                self.errors.append("rule %s matched %d instance(s), reference count is %d (an anchor moved or vanished; the rule would pass vacuously)"
+                                   % (r, got, fl))
+            elif got < fl:
+                self.notes.append("rule %s matched %d instance(s), reference count is %d: some instances were merged or are no longer recognised" % (r, got, fl))
         viols = [ob for ob in self.obs if ob.status == VIOLATION and ob.known is None]
         undec = [ob for ob in self.obs if ob.status == UNDECIDED]
         for ob in undec:
